@@ -188,3 +188,33 @@ def explore_entry(tu, fname, make_args, table_factory, extra_leafs=None, argv=No
         args = make_args(it, state)
         return (fname, args, dict(state))
     return it.explore(setup)
+
+
+def raw_guest_writes(tu, fdecl, table_factory, max_paths=600):
+    """{target text} of stores the import itself performs into guest memory through an index/pointer expression (not through
+    the typed store helpers, not through a host call that receives buffer and length) - evaluated with a live descriptor 3"""
+    from . import astdb as _a
+    params = _a.fn_params(fdecl)
+
+    def mk(it, st):
+        args = [unk('instance')]
+        for i, prm in enumerate(params[1:]):
+            nm = prm.get('name', 'p%d' % i)
+            if nm in ('fd', 'dirFD', 'oldFD', 'newFD', 'oldDirFD', 'newDirFD', 'fromFD', 'toFD'):
+                args.append(3)
+            elif 'Count' in nm or 'count' in nm:
+                args.append(1)
+            elif nm == 'whence':
+                args.append(0)
+            elif 'lags' in nm or 'ights' in nm:
+                args.append(0)
+            else:
+                args.append(unk(nm, tu.desugar(_a.qtype(prm))))
+        return args
+    paths = explore_entry(tu, fdecl['name'], mk, table_factory, max_paths=max_paths, errno_value=5)
+    raw = set()
+    for p in paths:
+        for n, a, l in p.events:
+            if n.startswith('store-sym') and 'gdata' in repr(a[0]):
+                raw.add(repr(a[0])[:120])
+    return raw, len(paths)
